@@ -290,6 +290,13 @@ func checkAppendFor(c *Ctx, rule string, t *Terminal, fname, label string, obj V
 }
 
 func accessors(c *Ctx, rule string) {
+	// Go semantics: indexing a nil map or an absent key yields the zero Attribute, whose Values has length 0 — so the
+	// cases "nil map", "absent key" and "present without values" are all instances of len(vals[k].Values) == 0.
+	const L = "len($vals[$k].Values)"
+	lenPos := func(a map[string]bool) bool { return a["0 < "+L] || a["!("+L+" < 1)"] || a["!("+L+" == 0)"] }
+	lenZero := func(a map[string]bool) bool {
+		return a["$vals == nil"] || a["!(maphas($vals, $k))"] || a["!(0 < "+L+")"] || a[L+" < 1"] || a[L+" == 0"]
+	}
 	get := c.kernel("(Values).Get", "*")
 	if get != nil {
 		fname := shortFn(get.Root)
@@ -302,9 +309,9 @@ func accessors(c *Ctx, rule string) {
 				c.check(v == `""`, rule, fname, "nil map => \"\"", pos, v, "nil map returns "+v)
 			case a["!(maphas($vals, $k))"]:
 				c.check(v == `""`, rule, fname, "absent key => \"\"", pos, v, "absent key returns "+v)
-			case a["maphas($vals, $k)"] && (a["0 < len($vals[$k].Values)"] || a["!(len($vals[$k].Values) < 1)"] || a["!(len($vals[$k].Values) == 0)"]):
+			case lenPos(a):
 				c.check(v == "$vals[$k].Values[0].Value", rule, fname, "present => first value", pos, v, "present key returns "+v+", want the first value")
-			case a["maphas($vals, $k)"]:
+			case lenZero(a):
 				c.check(v == `""`, rule, fname, "present without values => \"\"", pos, v, "attribute without values returns "+v)
 			default:
 				c.undecided(rule, fname, "Get path shape", pos, "unrecognised path: "+strings.Join(t.atomList(), " ∧ "))
@@ -319,12 +326,10 @@ func accessors(c *Ctx, rule string) {
 			pos := c.P.InstrPos(t.Instr)
 			v := ap(t.Vals[0])
 			switch {
-			case a["$vals == nil"], a["!(maphas($vals, $k))"]:
-				c.check(v == "0", rule, fname, "nil map / absent key => 0", pos, v, "returns "+v)
-			case a["maphas($vals, $k)"]:
-				c.check(v == "len($vals[$k].Values)", rule, fname, "present => value count", pos, v, "present key returns "+v+", want len(values)")
+			case lenZero(a):
+				c.check(v == "0" || v == L, rule, fname, "nil map / absent key / no values => 0", pos, v, "returns "+v)
 			default:
-				c.undecided(rule, fname, "GetSize path shape", pos, "unrecognised path")
+				c.check(v == L, rule, fname, "present => value count", pos, v, "present key returns "+v+", want len(values)")
 			}
 		}
 	}
